@@ -221,14 +221,17 @@ def create_redist_dict(
     realloc = {}
     for pair in sorted_scores:
       if is_outlier(pair[1], total_score, group_resource, dim - 1):
-        realloc.update({pair[0]: dim})
-        group_resource -= (dim - 1)
-        total_score -= pair[1]
+        alloc = dim
       else:
         unit_rsc = group_resource / total_score if total_score else 0.0
-        realloc.update({pair[0]: rd(pair[1] * unit_rsc)})
-        group_resource -= (rd(pair[1] * unit_rsc) - 1)
-        total_score -= pair[1]
+        alloc = rd(pair[1] * unit_rsc)
+      # The running float total loses precision when scores differ widely in
+      # scale, so a share can come out larger than what is left (or below
+      # one); never hand out more than the remaining budget.
+      alloc = max(1, min(alloc, dim, group_resource + 1))
+      realloc.update({pair[0]: alloc})
+      group_resource -= (alloc - 1)
+      total_score -= pair[1]
 
     for key in realloc:
       assert realloc[key] <= dim, (key, realloc[key], dim)
@@ -240,10 +243,12 @@ def create_redist_dict(
     if allocated < group_resource:
       extra = group_resource - allocated
       for (key, _) in sorted_scores:
-        realloc[key] = min(realloc[key] + 1, dim)
-        extra = extra - 1 if realloc[key] + 1 < dim else extra
         if extra <= 0:
           break
+        # Only a rank that was actually raised consumes leftover budget.
+        if realloc[key] < dim:
+          realloc[key] += 1
+          extra -= 1
 
     redist_dict = alloc_fn(redist_dict, group, realloc)
 
